@@ -57,7 +57,8 @@ class G12(Gen):
         self.emit("dump")
         if self.sealing:
             self.emit("journals")
-            self.emit("drain")       # recovery queues its flush tasks in hash-map order: go on only after they ran
+        self.emit("drain")           # recovery queues its tasks in hash-map order / by L0 runs: go on only after they ran
+        if self.sealing:
             self.emit("journals")
         for i in self.r.sample(range(3), self.r.randrange(1, 4)):
             self.open_ks(i)
